@@ -262,6 +262,23 @@ def World.step : World → WOp → World :=
 
 def World.run (w : World) (ops : List WOp) : World := ops.foldl World.step w
 
+/-- All graphics commands a history emits, in order (the concatenation of what its renders write). -/
+def World.trace (w : World) : List WOp → List Cmd
+  | [] => []
+  | op :: rest =>
+    (match op with
+     | .render => (w.render renderOrder renderShape Placements.samePlacement kittyWriteBody false).2
+     | .refresh => (w.render renderOrder renderShape Placements.samePlacement kittyWriteBody true).2
+     | _ => []) ++ World.trace (w.step op) rest
+
+/-- A stricter terminal (kitty's own behaviour, observation O2 of the notes): transmitting data under an id that
+    already has an image replaces the image AND removes its placements. -/
+def Term.applyDrop (t : Term) : Cmd → Term
+  | .transmit id e =>
+    { data := fun i => if i = id then some e else t.data i,
+      places := fun k => if k.1 = id ∧ (t.data id).isSome then none else t.places k }
+  | c => t.apply c
+
 /-- The frames of a history are key-functional: at every render the next-frame list has no two different placements
     with the same (image, origin).  (Holds whenever a frame draws an image at most once per origin between two
     `Resize`s of it — in particular when the application clears before drawing a frame.) -/
